@@ -14,13 +14,13 @@ using namespace muscle;
 struct Opts
 {
    std::string victimHost, victimId;    // spliced into the clause table as "VH" / "VI"
-   bool allowRawRegex;                  // known finding F19: raw regexes reach regcomp unvetted; stacked repetition is exponential
+   bool allowRawRegex;                  // known finding F19: raw regexes reach regcomp unvetted; stacked repetition is exponential (lifts the exclusion: the last clause form becomes the bomb)
    uint32 * pathsAddressingVictim;      // counted when a generated path names the victim's host or id literally or by wildcard at both levels
    bool aimAtVictim;                    // C06: a third of the paths are built as /<victim host|*>/<victim id|*>/<clauses from the victim's vocabulary> (costs one extra byte per path, so C07 leaves it off)
    Opts() : allowRawRegex(false), pathsAddressingVictim(NULL), aimAtVictim(false) {}
 };
 
-static const char * const CLAUSES[] = {"a", "b", "c", "*", "a*", "?", "[ab]", "(a|b)", "a,b", "~a", "<0-5>", "I0", "I1", "\\*", "", "..", "o", "0", "1", "2", "*/*", "x\\", "VH", "VI", "VH", "VI", "~zz", "`a.*", "`(a|b)+c"};
+static const char * const CLAUSES[] = {"a", "b", "c", "*", "a*", "?", "[ab]", "(a|b)", "a,b", "~a", "<0-5>", "I0", "I1", "\\*", "", "..", "o", "0", "1", "2", "*/*", "x\\", "VH", "VI", "`", "~`", "~zz", "`a.*", "`(a|b)+c"};
 enum {NUM_CLAUSES = 29};
 
 inline String GenPath(vf::BS & bs, const Opts & o)
@@ -39,8 +39,8 @@ inline String GenPath(vf::BS & bs, const Opts & o)
    {
       if (i) r += '/';
       const char * c = CLAUSES[bs.u8()%NUM_CLAUSES];
-      if ((c[0] == '`')&&(o.allowRawRegex == false)) {vf::Excluded("F19"); c = "a*";}      // raw-regex clauses are kept out entirely while F19 stands
-      else if ((c[0] == '`')&&(c[1] == '(')) c = "`e+++++++++++++++++++++++";                     // (exclusion lifted) stacked repetition: exponential in regcomp
+      // raw-regex clauses (backtick prefix) are part of the alphabet, incl. the empty regex; only stacked repetition -- known finding F19, exponential in regcomp -- is kept out
+      if ((c[0] == '`')&&(c[1] == '(')) {if (o.allowRawRegex) c = "`e+++++++++++++++++++++++"; else vf::Excluded("F19");}
       if (strcmp(c, "VH") == 0) {r += o.victimHost.size() ? o.victimHost.c_str() : "*"; if (i == 0) vh = true;}
       else if (strcmp(c, "VI") == 0) {r += o.victimId.size() ? o.victimId.c_str() : "*"; if (i == 1) vi = true;}
       else {r += c; if ((i == 0)&&(strcmp(c, "*") == 0)) vh = true; if ((i == 1)&&(strcmp(c, "*") == 0)) vi = true;}
@@ -57,7 +57,7 @@ inline MessageRef GenFilter(vf::BS & bs, int depth)
       case 0: {WhatCodeQueryFilter f(bs.u8()%4, bs.u8()%4); (void) f.SaveToArchive(m);} break;
       case 1: {ValueExistsQueryFilter f("v", (bs.u8()&1) ? B_INT32_TYPE : B_ANY_TYPE); (void) f.SaveToArchive(m);} break;
       case 2: {Int32QueryFilter f("v", bs.u8()%7, bs.u8()%4, bs.u8()%3); (void) f.SaveToArchive(m);} break;
-      case 3: {uint8 op = bs.u8()%30; if ((op == StringQueryFilter::OP_REGULAR_EXPRESSION_MATCH)||(op == StringQueryFilter::OP_REGULAR_EXPRESSION_MATCH_IGNORECASE)) op = StringQueryFilter::OP_SIMPLE_WILDCARD_MATCH; StringQueryFilter f("s", op, (bs.u8()&1) ? "a*" : "b"); (void) f.SaveToArchive(m);} break;
+      case 3: {const uint8 op = bs.u8()%30; StringQueryFilter f("s", op, (bs.u8()&1) ? "a*" : "b"); (void) f.SaveToArchive(m);} break;     // incl. the regular-expression operators, with operands that cannot blow up
       case 4: {MinimumThresholdQueryFilter f(bs.u8()%3); (void) f.SaveToArchive(m); if (depth < 3) for (int i=0; i<2; i++) (void) m.AddMessage("kid", GenFilter(bs, depth+1));} break;
       case 5: {XorQueryFilter f; (void) f.SaveToArchive(m); if (depth < 3) (void) m.AddMessage("kid", GenFilter(bs, depth+1));} break;
       case 6: {ChildCountQueryFilter f(bs.u8()%6, bs.u8()%3); (void) f.SaveToArchive(m);} break;
